@@ -2006,27 +2006,26 @@ func c14r5(c *Ctx) {
 	{
 		o := c.Ob(rec, "gc-after-update", nil, "slice GC runs only after the deployment (with the new slice references) was updated successfully")
 		var problems []string
-		var gcCall ssa.Instruction
+		// Every call site of the GC is judged on its own: the normaliser's tail duplication (and any
+		// hand-written early-return structure) may leave one copy of the call per path, each of which
+		// must be preceded by the successful update. Call sites outside Reconcile are not judged here
+		// and therefore fail closed.
+		var gcCalls []ssa.Instruction
 		for _, call := range callsIn(rec) {
 			if staticCallee(call.Common) == gc {
-				if gcCall != nil {
-					problems = append(problems, "GC is called more than once")
-				}
-				gcCall = call.Instr
+				gcCalls = append(gcCalls, call.Instr)
 			}
 		}
-		callers := 0
 		for _, cl := range p.callersOf(gc) {
-			if !isNonProductPkg(funcPkgPath(cl.Fn)) {
-				callers++
+			if !isNonProductPkg(funcPkgPath(cl.Fn)) && cl.Fn != rec {
+				problems = append(problems, fmt.Sprintf("sliceGarbageCollection is also called from %s (%s), where the update is not known to have succeeded", shortFuncID(cl.Fn), p.IPos(cl.Instr)))
 			}
 		}
-		if callers != 1 {
-			problems = append(problems, fmt.Sprintf("sliceGarbageCollection has %d call sites, expected the one in Reconcile", callers))
-		}
-		if gcCall == nil {
+		if len(gcCalls) == 0 {
 			problems = append(problems, "GC is not called from Reconcile")
-		} else {
+		}
+		seenBad := map[string]bool{}
+		for _, gcCall := range gcCalls {
 			okUpd := false
 			for _, call := range callsIn(rec) {
 				cv, isCall := call.Instr.(*ssa.Call)
@@ -2059,7 +2058,11 @@ func c14r5(c *Ctx) {
 				}
 			}
 			if !okUpd {
-				problems = append(problems, "GC can run although updating the deployment failed or did not happen")
+				msg := "GC (" + p.IPos(gcCall) + ") can run although updating the deployment failed or did not happen"
+				if !seenBad[msg] {
+					seenBad[msg] = true
+					problems = append(problems, msg)
+				}
 			}
 		}
 		if len(problems) == 0 {
